@@ -160,26 +160,75 @@ Proof.
   apply C02_PathSetter.loop_all_tnl. apply inp_next_none_sub. exact En.
 Qed.
 
+(* special scheme: a leading '/' or '\' opens the first segment, whatever the text in front ends with *)
+Lemma loop_first_sl_sp ps c r ser hh : is_sl c = true ->
+  parse_path_loop dbg CUrlParser STSpecialNotFile ps (c :: r) ser (nlen ser) [] hh
+  = parse_path_loop dbg CUrlParser STSpecialNotFile ps r (ser ++ [47]) (nlen (ser ++ [47])) [] hh.
+Proof.
+  intros Hsl.
+  assert (finish_segment dbg STSpecialNotFile ps (ser ++ [47]) (nlen ser) true hh = POk (ser ++ [47], hh)) as Hf.
+  { apply (finish_plain_sp dbg ps (ser ++ [47]) (nlen ser) true hh []); [| reflexivity | reflexivity].
+    rewrite nlen_app. replace (nlen ser + nlen [47] - 1) with (nlen ser) by (unfold nlen; cbn [length]; lia).
+    rewrite <- (app_nil_l [47]). replace (nlen ser) with (nlen ser + nlen []) at 2 by (rewrite nlen_nil; lia).
+    apply slice_mid. }
+  assert (c = 47 \/ c = 92) as [-> | ->] by (unfold is_sl in Hsl; lia).
+  - rewrite loop_cons_slash_sp. cbn [push_pending]. rewrite Hf. reflexivity.
+  - rewrite loop_cons_bslash_sp. cbn [push_pending]. rewrite Hf. reflexivity.
+Qed.
+
 (* special scheme, the text starts with '/' or '\' *)
-Theorem pps_setter_exact_sp s0 p c r hh : usv_list p -> ends_with_byte 47 s0 = false ->
-  inp_next p = Some (c, r) -> is_sl c = true ->
+Theorem pps_setter_exact_sp s0 c r hh : usv_list (c :: r) -> is_sl c = true ->
   spath_okO true (ntnl r) [] [] = true ->
-  exists rem, parse_path_start dbg CSetter STSpecialNotFile hh s0 p
+  exists rem, parse_path_start dbg CSetter STSpecialNotFile hh s0 (c :: r)
               = POk (s0 ++ flat_map (fun s => 47 :: s) (spathO true (ntnl r) [] []), hh, rem).
 Proof.
-  intros Hu He En Hsl Hok. unfold parse_path_start, inp_split_first. cbn [st_is_special]. rewrite He, En. cbn [negb].
-  rewrite is_sl_model, Hsl.
-  unfold parse_path.
-  pose proof (inp_next_usv p c r Hu En) as Hur. pose proof (usv_qh_sub r Hur) as Hur'.
-  rewrite (loop_setter_sub dbg STSpecialNotFile eq_refl (nlen s0) r (s0 ++ [47]) (nlen (s0 ++ [47])) [] [] hh Hur pend_eq_nil).
+  intros Hu Hsl Hok.
+  assert (is_tnl c = false) as Et by (unfold is_sl in Hsl; unfold is_tnl; lia).
+  pose proof (inp_next_cons c r Et) as En.
+  pose proof (inp_next_usv (c :: r) c r Hu En) as Hur. pose proof (usv_qh_sub r Hur) as Hur'.
   assert (pend_ok []) as Hp0 by (split; [constructor | reflexivity]).
   assert (Bs s0 [] = s0 ++ [47]) as EB by (unfold Bs; cbn; rewrite !app_nil_r; reflexivity).
   rewrite spath_okO_sp, <- ntnl_qh_sub in Hok.
   destruct (loop_exact_s s0 dbg (qh_sub r) [] [] [] hh Hur' Hp0 eq_refl eq_refl Hok) as (segs & last & Hloop & Hfst & _).
   cbn [app rev utf8_encode flat_map encode] in Hfst.
-  rewrite app_nil_r, EB in Hloop. rewrite Hloop.
-  exists (cbb_rest (qh_sub r)). f_equal. f_equal. f_equal.
-  rewrite spathO_sp, <- ntnl_qh_sub, Hfst, path_text_flat. unfold Bs, path_text. rewrite <- !app_assoc. reflexivity.
+  rewrite app_nil_r, EB in Hloop.
+  assert (Bs s0 segs ++ last = s0 ++ flat_map (fun s => 47 :: s) (spathO true (ntnl r) [] [])) as Eout.
+  { rewrite spathO_sp, <- ntnl_qh_sub, Hfst, path_text_flat. unfold Bs, path_text. rewrite <- !app_assoc. reflexivity. }
+  rewrite Eout in Hloop. exists (cbb_rest (qh_sub r)).
+  unfold parse_path_start, inp_split_first. cbn [st_is_special]. rewrite En. rewrite is_sl_model, Hsl.
+  destruct (ends_with_byte 47 s0); cbn [negb]; unfold parse_path.
+  - rewrite (loop_setter_sub dbg STSpecialNotFile eq_refl (nlen s0) (c :: r) s0 (nlen s0) [] [] hh Hu pend_eq_nil).
+    cbn [qh_sub].
+    assert ((c =? 63) = false /\ (c =? 35) = false) as [-> ->] by (unfold is_sl in Hsl; lia).
+    rewrite (loop_first_sl_sp (nlen s0) c (qh_sub r) s0 hh Hsl). exact Hloop.
+  - rewrite (loop_setter_sub dbg STSpecialNotFile eq_refl (nlen s0) r (s0 ++ [47]) (nlen (s0 ++ [47])) [] [] hh Hur pend_eq_nil).
+    exact Hloop.
 Qed.
 
 End PathStartSetter.
+
+(* ================= the new path has no '?' and no '#' ================= *)
+Lemma upe_cp_no_qh_all c : no_qh (utf8_percent_encode_cp in_path_set c) = true.
+Proof.
+  destruct (is_qh c) eqn:E; [|exact (upe_cp_no_qh c E)].
+  assert (c = 63 \/ c = 35) as [-> | ->] by (unfold is_qh in E; lia); vm_compute; reflexivity.
+Qed.
+
+Lemma spathO_no_qh sp t : forall P B, forallb no_qh P = true -> no_qh B = true ->
+  forallb no_qh (spathO sp t P B) = true.
+Proof.
+  induction t as [|c r IH]; intros P B HP HB; cbn [spathO].
+  - apply fin_no_qh; assumption.
+  - destruct (sepc sp c); [apply IH; [apply fin_no_qh; assumption | reflexivity]|].
+    apply IH; [exact HP|]. unfold no_qh in *. rewrite forallb_app, HB. cbn [andb]. apply upe_cp_no_qh_all.
+Qed.
+
+Lemma spathO_flat_no_qh sp t :
+  forallb (fun c => negb ((c =? 63) || (c =? 35))) (flat_map (fun s => 47 :: s) (spathO sp t [] [])) = true.
+Proof. apply flat_no_qh. apply spathO_no_qh; reflexivity. Qed.
+
+Lemma spathO_nonempty sp t : forall P B, spathO sp t P B <> [].
+Proof.
+  induction t as [|c r IH]; intros P B; cbn [spathO]; [apply fin_nonempty|].
+  destruct (sepc sp c); apply IH.
+Qed.
